@@ -1622,7 +1622,8 @@ skip_digit_separator(int c) {
   get();
   c = peek();
 
-  if (isdigit(c)) {
+  if (isxdigit(c)) {
+    // This also covers the digits a-f of a hexadecimal number.
     return c;
   }
 
